@@ -2,6 +2,7 @@ import RedactVerif.Proofs.NI
 import RedactVerif.Proofs.PrinterNI
 import RedactVerif.Props.C01
 import RedactVerif.Props.FactsClassify
+import RedactVerif.Props.FactsSkelPrinter
 /-
 C02 — redacted output is independent of unsafe data (non-interference), and
 C05's counting half as a corollary. Buffer level: for every pair of operation
